@@ -327,9 +327,9 @@ Lemma uint1_cons : forall b st r, b < 256 -> st_fail st = false -> st_rest st = 
 Proof. intros b st r Hb Hf Hr. apply (reads_uint1 b Hb st r Hf Hr). Qed.
 
 (* Parameters::Parameters(file) on the file c3d::write produced: the prologue and the tree come back *)
-Theorem read_parameters_written : forall h pr gs sec blocks hb data st,
+Theorem read_parameters_written_gen : forall h pr gs sec blocks hb data st,
   ok_tree gs -> (nds (recs_of gs 1) <= 1)%nat ->
-  (forall g, In g gs -> is_placeholder g = false /\ group_ok g) ->
+  apply_items (items_v gs 1 (blocks + 1)) [] = Ok (map (canon_g (blocks + 1)) gs) ->
   section_bytes pr gs = Ok (sec, blocks) -> blocks + 1 < 256 -> ps_start pr = 1 ->
   Forall wf_item (items_v gs 1 (blocks + 1)) ->
   h_paddr h = 2 -> h_zeros h = 0 -> length hb = 512%nat ->
@@ -372,11 +372,120 @@ Proof.
   assert (Lf : (length (st_file st1) >= 512 + length sec)%nat) by (unfold st1; cbn [st_file]; rewrite Hfile, !app_length; lia).
   unfold rbind at 1.
   rewrite (walk_items its _ [] st4 (z ++ data) Wf).
-  - unfold its, v. rewrite <- (app_nil_l (map _ gs)). change 1%Z with (Z.of_nat (length (@nil group)) + 1)%Z.
-    rewrite (apply_tree (blocks + 1) gs [] Hg). unfold rret. eexists. split; [reflexivity|]. split; reflexivity.
+  - rewrite Hg. unfold rret. eexists. split; [reflexivity|]. split; reflexivity.
   - pose proof (items_len_ge its). unfold nlen. rewrite Nat2N.id. lia.
   - reflexivity.
   - rewrite Pos4. lia.
   - rewrite Pos4. unfold nlen in Sh. lia.
   - unfold st4. cbn [adv st_rest]. rewrite Ez. rewrite <- !app_assoc. reflexivity.
+Qed.
+
+(* ---------- trees with placeholder groups (sparse group ids of loaded files) ---------- *)
+Definition ph : group := new_group [] [].
+
+Lemma repeat_snoc : forall A (x : A) k, repeat x k ++ [x] = repeat x (S k).
+Proof. intros A x k. induction k as [|k IH]; cbn; [reflexivity|]. rewrite IH. reflexivity. Qed.
+
+Lemma apply_group_k : forall v gid g T k rest, (length T + k)%nat = slot gid -> (1 <= gid)%Z -> group_ok g ->
+  apply_items (IG gid g :: map (item_of_param v gid) (g_params g) ++ rest) T = apply_items rest (T ++ repeat ph k ++ [canon_g v g]).
+Proof.
+  intros v gid g T k rest HT Hg [ND Ty]. cbn [apply_items apply_item].
+  assert (Gr : grow_groups T (Z.to_N gid) = (T ++ repeat ph k) ++ [ph]).
+  { unfold grow_groups. replace (Z.to_N gid - nlen T) with (N.of_nat (S k)) by (unfold nlen, slot in *; lia).
+    rewrite Nat2N.id. rewrite <- repeat_snoc. rewrite app_assoc. reflexivity. }
+  rewrite Gr.
+  assert (L : length (T ++ repeat ph k) = slot gid) by (rewrite app_length, repeat_length; exact HT).
+  rewrite <- L. rewrite nth_error_last. cbn [obind]. rewrite replace_last_any.
+  assert (Ed : desc_after g ph = g_desc g) by (unfold desc_after, ph; cbn; destruct (g_desc g); reflexivity).
+  rewrite Ed. unfold ph at 2. cbn [new_group g_params].
+  rewrite (apply_params v gid (g_params g) [] (T ++ repeat ph k) (mkGroup (upper (g_name g)) (g_desc g) (g_lock g) []) rest L Hg
+             (eq_refl : g_params (mkGroup (upper (g_name g)) (g_desc g) (g_lock g) []) = map (canon_p v) []) ND Ty).
+  rewrite <- app_assoc. reflexivity.
+Qed.
+
+Lemma canon_ph : forall v, canon_g v ph = ph.
+Proof. reflexivity. Qed.
+
+(* the walker on a tree with placeholders: they are re-created when a later group is met *)
+Theorem apply_tree_ph : forall v gs T k pre,
+  (forall g, In g gs -> (is_placeholder g = true -> g = ph) /\ (is_placeholder g = false -> group_ok g)) ->
+  T ++ repeat ph k = map (canon_g v) pre ->
+  exists T' k', apply_items (items_v gs (Z.of_nat (length pre) + 1) v) T = Ok T' /\
+                T' ++ repeat ph k' = map (canon_g v) (pre ++ gs) /\
+                (forall g0, last gs ph = g0 -> gs <> [] -> is_placeholder g0 = false -> k' = 0%nat).
+Proof.
+  intros v gs. induction gs as [|g t IH]; intros T k pre H Hinv; cbn [items_v].
+  - exists T, k. rewrite app_nil_r. split; [reflexivity|]. split; [exact Hinv|]. intros g0 _ Ne. contradiction.
+  - destruct (H g (or_introl eq_refl)) as [Hp Hn].
+    assert (Ht : forall g', In g' t -> (is_placeholder g' = true -> g' = ph) /\ (is_placeholder g' = false -> group_ok g'))
+      by (intros g' Hg'; apply H; right; exact Hg').
+    assert (Lp : length (map (canon_g v) pre) = length pre) by apply map_length.
+    assert (LT : (length T + k)%nat = length pre) by (rewrite <- Lp, <- Hinv, app_length, repeat_length; reflexivity).
+    destruct (is_placeholder g) eqn:Pl.
+    + (* nothing is written for it *)
+      rewrite (Hp eq_refl) in *.
+      destruct (IH T (S k) (pre ++ [ph]) Ht) as [T' [k' [E [I2 L2]]]].
+      { rewrite map_app. cbn [map]. rewrite canon_ph, <- Hinv, <- app_assoc, repeat_snoc. reflexivity. }
+      exists T', k'. rewrite app_length in E. cbn [length] in E.
+      replace (Z.of_nat (length pre) + 1 + 1)%Z with (Z.of_nat (length pre + 1) + 1)%Z by lia.
+      split; [exact E|]. split; [rewrite <- app_assoc in I2; exact I2|].
+      intros g0 Hl Ne Hg0. destruct t as [|g1 t1].
+      * cbn in Hl. subst g0. discriminate.
+      * apply (L2 g0); [exact Hl|discriminate|exact Hg0].
+    + rewrite (apply_group_k v _ g T k _); [|unfold slot; lia|lia|apply Hn; reflexivity].
+      destruct (IH (T ++ repeat ph k ++ [canon_g v g]) 0%nat (pre ++ [g]) Ht) as [T' [k' [E [I2 L2]]]].
+      { cbn [repeat]. rewrite app_nil_r, map_app. cbn [map]. rewrite <- Hinv, <- app_assoc. reflexivity. }
+      exists T', k'. rewrite app_length in E. cbn [length] in E.
+      replace (Z.of_nat (length pre) + 1 + 1)%Z with (Z.of_nat (length pre + 1) + 1)%Z by lia.
+      split; [exact E|]. split; [rewrite <- app_assoc in I2; exact I2|].
+      intros g0 Hl Ne Hg0. destruct t as [|g1 t1].
+      * (* g is the last group: nothing was skipped after it *)
+        cbn [items_v apply_items] in E. injection E as <-. cbn [app] in I2. rewrite app_nil_r in I2.
+        rewrite map_app in I2. cbn [map] in I2.
+        assert (Lq : length ((T ++ repeat ph k ++ [canon_g v g]) ++ repeat ph k') = length (map (canon_g v) pre ++ [canon_g v g])) by (rewrite I2; reflexivity).
+        rewrite !app_length, !repeat_length, map_length in Lq. cbn [length] in Lq. lia.
+      * apply (L2 g0); [exact Hl|discriminate|exact Hg0].
+Qed.
+
+Corollary apply_tree_whole : forall v gs,
+  (forall g, In g gs -> (is_placeholder g = true -> g = ph) /\ (is_placeholder g = false -> group_ok g)) ->
+  (gs <> [] -> is_placeholder (last gs ph) = false) ->
+  apply_items (items_v gs 1 v) [] = Ok (map (canon_g v) gs).
+Proof.
+  intros v gs H Hl. destruct (apply_tree_ph v gs [] 0%nat [] H eq_refl) as [T' [k' [E [I2 L2]]]].
+  cbn [length] in E. change (Z.of_nat 0 + 1)%Z with 1%Z in E. rewrite E. f_equal. cbn [app] in I2.
+  destruct gs as [|g t]; [cbn in E; injection E as <-; reflexivity|].
+  assert (K0 : k' = 0%nat) by (apply (L2 (last (g :: t) ph) eq_refl); [discriminate|apply Hl; discriminate]).
+  subst k'. cbn [repeat] in I2. rewrite app_nil_r in I2. exact I2.
+Qed.
+
+(* the tree without placeholders *)
+Theorem read_parameters_written : forall h pr gs sec blocks hb data st,
+  ok_tree gs -> (nds (recs_of gs 1) <= 1)%nat ->
+  (forall g, In g gs -> is_placeholder g = false /\ group_ok g) ->
+  section_bytes pr gs = Ok (sec, blocks) -> blocks + 1 < 256 -> ps_start pr = 1 ->
+  Forall wf_item (items_v gs 1 (blocks + 1)) ->
+  h_paddr h = 2 -> h_zeros h = 0 -> length hb = 512%nat ->
+  st_fail st = false -> st_file st = hb ++ sec ++ data ->
+  exists st', read_parameters h st = Ok ((mkPro 1 80 (blocks - 1) 84, map (canon_g (blocks + 1)) gs), st') /\
+    st_fail st' = false /\ st_file st' = st_file st.
+Proof.
+  intros h pr gs sec blocks hb data st Hok Hn Hg. apply read_parameters_written_gen; try assumption.
+  rewrite <- (app_nil_l (map _ gs)). change 1%Z with (Z.of_nat (length (@nil group)) + 1)%Z. apply (apply_tree (blocks + 1) gs [] Hg).
+Qed.
+
+(* ... and with placeholder groups (sparse group ids of a loaded file), as long as the last group is a real one *)
+Theorem read_parameters_written_sparse : forall h pr gs sec blocks hb data st,
+  ok_tree gs -> (nds (recs_of gs 1) <= 1)%nat ->
+  (forall g, In g gs -> (is_placeholder g = true -> g = ph) /\ (is_placeholder g = false -> group_ok g)) ->
+  (gs <> [] -> is_placeholder (last gs ph) = false) ->
+  section_bytes pr gs = Ok (sec, blocks) -> blocks + 1 < 256 -> ps_start pr = 1 ->
+  Forall wf_item (items_v gs 1 (blocks + 1)) ->
+  h_paddr h = 2 -> h_zeros h = 0 -> length hb = 512%nat ->
+  st_fail st = false -> st_file st = hb ++ sec ++ data ->
+  exists st', read_parameters h st = Ok ((mkPro 1 80 (blocks - 1) 84, map (canon_g (blocks + 1)) gs), st') /\
+    st_fail st' = false /\ st_file st' = st_file st.
+Proof.
+  intros h pr gs sec blocks hb data st Hok Hn Hg Hl. apply read_parameters_written_gen; try assumption.
+  apply apply_tree_whole; assumption.
 Qed.
